@@ -443,7 +443,7 @@ func (p *Parser) parseAddons() (directives.Addons, error) {
 			}
 		}
 		if _, err := p.readRestOfWhitespaceLine(); err != nil {
-			return directives.SetRange(&addons, s.Range()), s.Annotate(directives.Error{})
+			return directives.SetRange(&addons, s.Range()), s.Annotate(err)
 		}
 		if p.Current() != '@' {
 			return directives.SetRange(&addons, s.Range()), nil
